@@ -9,7 +9,9 @@
 
 using namespace std;
 
-static const string kAlpha = string("a \\#$:%~") + "\xC3";
+// '*' and ';' stand for the printable characters the compilers write unescaped but the scanner's plain-text
+// class lacks (* ; < > ^ ` |), see the known finding F32.
+static const string kAlpha = string("a \\#$:%~*;") + "\xC3";
 
 // R-depfile: the compilers' quoting.  `escape_colon`: some producers write "\:" for a colon.
 static string Encode(const string& n, bool escape_colon) {
@@ -33,14 +35,17 @@ static string Encode(const string& n, bool escape_colon) {
 }
 
 // Names the dialect can represent unambiguously.
-static bool Representable(const string& n, bool as_target) {
+static bool Representable(const string& n, bool as_target, bool escape_colon = false) {
   if (n.empty()) return false;
   if (n.back() == ':') return false;                 // "x:" is "x" plus the rule separator
   size_t bs = 0;
   for (size_t i = n.size(); i > 0 && n[i - 1] == '\\'; --i) bs++;
   if (bs) return false;                              // trailing backslashes merge with the separator
   for (size_t i = 0; i + 1 < n.size(); ++i) {
-    if (n[i] == '\\' && (n[i + 1] == ':' || n[i + 1] == '#')) return false;  // reads as an escape
+    // a backslash before '#' always reads as an escape; before ':' it does unless the producer escapes
+    // colons ("a\\:b" for the name "a\:b": the last backslash belongs to the colon, the others are literal)
+    if (n[i] == '\\' && n[i + 1] == '#') return false;
+    if (n[i] == '\\' && n[i + 1] == ':' && !escape_colon) return false;
     if (n[i] == ':' && n[i + 1] == ' ') return false;                          // reads as end of target
     if (n[i] == '$' && n[i + 1] == '$') {}                                     // fine: "$$$$"
   }
@@ -48,7 +53,8 @@ static bool Representable(const string& n, bool as_target) {
   return true;
 }
 
-struct Res { uint64_t files = 0, names = 0, violations = 0, rejected_ok = 0, known_bsdollar = 0; string first_bad, first_why, kb_bad, kb_why; };
+struct Res { uint64_t files = 0, names = 0, violations = 0, rejected_ok = 0, known_bsdollar = 0, known_sep = 0;
+             string first_bad, first_why, kb_bad, kb_why, ks_bad, ks_why; };
 
 static bool Same(const vector<StringPiece>& got, const vector<string>& want) {
   if (got.size() != want.size()) return false;
@@ -133,7 +139,7 @@ int main(int argc, char** argv) {
     do {
       string s(len, 'x');
       for (int k = 0; k < len; ++k) s[k] = kAlpha[od.d[k]];
-      if (Representable(s, false)) names.push_back(s);
+      if (Representable(s, false) || Representable(s, false, true)) names.push_back(s);
     } while (od.Next());
   }
   Res r;
@@ -145,6 +151,13 @@ int main(int argc, char** argv) {
     for (auto* l : {&outs, &ins}) for (auto& n : *l) if (n.find("\\$") != string::npos) bsdollar = true;
     if (bsdollar) {
       if (!r.known_bsdollar++) { r.kb_bad = text; r.kb_why = why; }
+      return;
+    }
+    // ... or: some name contains a printable character that the scanner does not count as part of a name
+    bool sepchar = false;
+    for (auto* l : {&outs, &ins}) for (auto& n : *l) if (n.find_first_of("*;<>^`|") != string::npos) sepchar = true;
+    if (sepchar) {
+      if (!r.known_sep++) { r.ks_bad = text; r.ks_why = why; }
       return;
     }
     if (!r.violations++) {
@@ -164,6 +177,9 @@ int main(int argc, char** argv) {
       for (auto& o : outs) { eo.push_back(Encode(o, ec)); if (o.find(':') != string::npos) any_colon = true; }
       for (auto& i : ins) { ei.push_back(Encode(i, ec)); if (i.find(':') != string::npos) any_colon = true; }
       if (ec && !any_colon) continue;
+      bool representable = true;
+      for (auto* l : {&outs, &ins}) for (auto& n : *l) if (!Representable(n, false, ec != 0)) representable = false;
+      if (!representable) continue;
       for (auto& text : Layouts(eo, ei)) {
         string why;
         if (!CheckFile(text, outs, ins, &r, &why)) fail(text, why, outs, ins);
@@ -190,6 +206,7 @@ int main(int argc, char** argv) {
   for (auto& n : small) {
     if ((long)(idx++ % nshards) != shard) continue;
     if (n.find(':') != string::npos) continue;
+    if (n.find_first_of("*;<>^`|") != string::npos) continue;   // such names do not survive the scanner (F32)
     {
       string text = "T.o " + Encode(n, false) + "\n";
       string content = text, err;
@@ -225,11 +242,13 @@ int main(int argc, char** argv) {
     }
   }
   printf("{\"cases\":%llu,\"files\":%llu,\"representable_names\":%llu,\"rejected_ok\":%llu,\"violations\":%llu,"
-         "\"first_bad\":\"%s\",\"first_why\":\"%s\",\"backslash_dollar_failures\":%llu,\"bsd_bad\":\"%s\",\"bsd_why\":\"%s\",\"samples\":[",
+         "\"first_bad\":\"%s\",\"first_why\":\"%s\",\"backslash_dollar_failures\":%llu,\"bsd_bad\":\"%s\",\"bsd_why\":\"%s\","
+         "\"separator_character_failures\":%llu,\"sep_bad\":\"%s\",\"sep_why\":\"%s\",\"samples\":[",
          (unsigned long long)r.names, (unsigned long long)r.files, (unsigned long long)names.size(),
          (unsigned long long)r.rejected_ok, (unsigned long long)r.violations, vx::Hex(r.first_bad).c_str(),
          vx::JsonEscape(r.first_why).c_str(), (unsigned long long)r.known_bsdollar, vx::Hex(r.kb_bad).c_str(),
-         vx::JsonEscape(r.kb_why).c_str());
+         vx::JsonEscape(r.kb_why).c_str(), (unsigned long long)r.known_sep, vx::Hex(r.ks_bad).c_str(),
+         vx::JsonEscape(r.ks_why).c_str());
   for (size_t i = 0; i < samples.size(); ++i) printf("%s\"%s\"", i ? "," : "", vx::JsonEscape(samples[i]).c_str());
   printf("]}\n");
   return 0;
